@@ -353,6 +353,27 @@ package unmarshal
 //@     go: (&OTLPDecoder{}).writeAttrValue("out", outer, "", &res)
 //@     go: if res["out.in.m"] != "v" { confirm("a nested map attribute out.in.m is flattened to " + fmt.Sprint(res)) }
 //@   end
+// The service name of an OTLP span: the value of the last attribute, in the order
+// peer.service, service.name, faas.name, k8s.deployment.name, process.executable.name,
+// that is present with a string value; the placeholder only when that leaves the
+// name empty. (The read path derives the name from the same attributes: a span that
+// names its service only by peer.service must be stored under that name.)
+//@ func getOtlpAttr
+//@   flag function
+//@   modifies nothing
+//@ spec fn isS(attrs []*v11.KeyValue, k string) bool = getOtlpAttr(attrs, k) != nil && typeis(getOtlpAttr(attrs, k).Value.Value, "*v11.AnyValue_StringValue")
+//@ spec fn sv(attrs []*v11.KeyValue, k string) string = unbox(getOtlpAttr(attrs, k).Value.Value, "*v11.AnyValue_StringValue").StringValue
+//@ spec fn localUpTo(attrs []*v11.KeyValue, k int) string = (k >= 4 && isS(attrs, "process.executable.name")) ? sv(attrs, "process.executable.name") : ((k >= 3 && isS(attrs, "k8s.deployment.name")) ? sv(attrs, "k8s.deployment.name") : ((k >= 2 && isS(attrs, "faas.name")) ? sv(attrs, "faas.name") : ((k >= 1 && isS(attrs, "service.name")) ? sv(attrs, "service.name") : ((k >= 0 && isS(attrs, "peer.service")) ? sv(attrs, "peer.service") : ""))))
+//@ func otlpGetServiceNames [C06]
+//@   flag checks=-index,-assert
+//@   modifies nothing
+//@   ensures name-found-is-kept: localUpTo(attrs, 4) != "" ==> result0 == localUpTo(attrs, 4)
+//@   ensures placeholder-when-nothing-names-it: localUpTo(attrs, 4) == "" ==> result0 == "OTLPResourceNoServiceName"
+//@   loop 1:
+//@     invariant rangeindex >= -1 && rangeindex <= 4 && local == localUpTo(attrs, rangeindex)
+//@     modifies nothing
+//@   loop 2:
+//@     modifies nothing
 //@ func populateServiceNames
 //@   modifies span.Attributes
 //@ func (*OTLPDecoder).Decode [C05,C06]
